@@ -25,7 +25,10 @@ pub struct Entry {
     hi: u64,
 }
 
-const STRINGS: [&str; 6] = ["", "a", "é", "a\n", "\n", "𝄞b"];
+// the last five: white space of 2 and 3 bytes at either end and on its own, a vertical tab,
+// letters whose case mapping changes their length (after seeded change C10-7: a character
+// count used as a byte offset by a fast path of `trim*`)
+const STRINGS: [&str; 11] = ["", "a", "é", "a\n", "\n", "𝄞b", "\u{a0}x", "x\u{3000}", "\u{2003}\u{a0}", "\u{b}a\u{b}", "ßİ"];
 const IPS4: [&str; 4] = ["0.0.0.0", "1.1.1.1", "127.0.0.1", "255.255.255.255"];
 const IPS6: [&str; 4] = ["::", "::1", "::ffff:1.2.3.4", "ffff:ffff:ffff:ffff:ffff:ffff:ffff:ffff"];
 
